@@ -103,7 +103,6 @@ def cli_inputs(ctx: Ctx, mix_inputs, n_cfg):
             row = m["rows"][0]
             per_locus.setdefault((row[K.BASE], row[K.S], row[K.E]), []).append(m)
         members = [rng.choice(per_locus[k]) for k in sorted(per_locus)]
-        # a few more autosomal segments so that the table looks like a sample to the sex guesser
         b = K.batch_inputs(members)[0]
         b["op"] = "clonal_mix_cli"
         out.append(b)
@@ -131,11 +130,12 @@ def _bump_boundaries(ctx, rec, row):
 def run(ctx: Ctx):
     thorough = ctx.tier == "thorough"
     ctx.rule = ("direction 1: every state of MC_Calling (ops clonal_mix, clonal_pure, clonal_any: one segment row under "
-                "one configuration) executed by the real do_call, rows of a configuration batched into one table, one "
-                "record per state; direction 2: seeded random real log2 in [-30,30] x random configuration (tables of "
-                "1..40 rows), and `cnvkit.py call -m clonal` through parse_args/_cmd_call and files for a seeded sample "
-                "of enumerated configurations. A case is distinct by (op, configuration, row); non-trivial when the "
-                "premise holds.")
+                "one configuration) executed by the real do_call -- the rows of a configuration form one table = one "
+                "call; every row is judged (mixing-model rows grouped per locus into one record, all others one record "
+                "per row); direction 2: seeded random real log2 in [-30,30] x random configuration (tables of 1..40 "
+                "rows, judged row by row), and `cnvkit.py call -m clonal` through parse_args/_cmd_call and files for a "
+                "seeded sample of enumerated configurations. A case is distinct by (op, configuration, rows); "
+                "non-trivial when the premise holds.")
     all16 = tuple(range(1, 17))
     purities = tuple(range(1, 14)) if thorough else (1, 5, 9, 10, 11, 13)
     records = []
@@ -171,8 +171,9 @@ def run(ctx: Ctx):
     ctx.mc("MC_Calling", cfg, dump=False, timeout=1200)
     ctx.exhaustive = (f"n 0..12 x {len(purities)} purities x ploidy 1..6 x 16 loci (autosome, X, Y, PAR1/PAR2 of X and Y "
                       "for grch37 and grch38: exact, one base off, interior) x reference sex x sample sex x naming x "
-                      "{no PAR genome, grch37, grch38}; no-purity grid of 44 ratios; 8 arbitrary ratios -- every dumped "
-                      "state replayed")
+                      "{no PAR genome, grch37, grch38}; no-purity grid of 104 ratios (eighths to 5, non-dyadic values, 1e-6 "
+                      "either side of every rounding boundary for r = 1..6); 8 arbitrary ratios 2^-10..2^10 x purity "
+                      "{none, 1/10, 1/2, 1, 1/3, 99/100} -- every dumped state replayed")
     # ---- direction 2
     rnd_tables = ctx.execute(K.execute, random_any_inputs(ctx, 6000 if thorough else 600))
     rnd = [x for t in rnd_tables for x in K.split_record(t)]     # row by row: a known finding on one row must
@@ -182,13 +183,14 @@ def run(ctx: Ctx):
     cli = ctx.execute(K.execute, cli_inputs(ctx, mix_inputs, 300 if thorough else 32))
     cli = [x for t in cli for x in K.split_record(t)]
     records += cli
-    for rec in records:
-        ctx.count_input([rec["op"], K.batch_key(rec), rec["rows"]], nontrivial=True)
-        for row in rec["rows"]:
-            _bump_boundaries(ctx, rec, row)
     for rec in (mix[0], mix[len(mix) // 2], pure[3], rnd[0], cli[0]):
         ctx.sample(rec)
     verdicts = K.validate_fast(ctx, TRACE, records)
+    for rec, v in zip(records, verdicts):
+        ctx.count_input([rec["op"], K.batch_key(rec), rec["rows"]], nontrivial=v["scope"])
+        if v["scope"]:
+            for row in rec["rows"]:
+                _bump_boundaries(ctx, rec, row)
     ctx.notes["rows_judged"] = sum(len(r["rows"]) for r, v in zip(records, verdicts) if v["scope"])
     ctx.notes["rows_out_of_scope"] = sum(len(r["rows"]) for r, v in zip(records, verdicts) if not v["scope"])
     ctx.trusted_base = ["TLC 1.8 evaluation of spec/Calling.tla, spec/Karyotype.tla (incl. its base-10^4 limb arithmetic)",
